@@ -3,73 +3,73 @@ NOT_APPLICABLE = {}
 
 TEXTS = {
     'C01': dict(
-        text="Generated-input search against an exact reference model: values are built from the mapping under test (bin edges +-4 ulps, range ends, powers of two, sub-minimum magnitudes, both signs, duplicates) over all 3 mapping kinds x alpha in [1e-6,0.99] x 3x3 non-collapsing store kinds, added one at a time; every answer is compared with the exact order statistics at floor/ceil of the exact rational rank q*(n-1) under the configured alpha plus a derived floating-point slack; q=0/q=1 must be bit-identical to the extreme bin's representative. Exploration is the right level: a for-all over inputs/configurations with an executable oracle.",
+        text="Generated-input search against an exact reference model: values are built from the mapping under test (bin edges +-4 ulps, range ends, powers of two, sub-minimum magnitudes, both signs, duplicates) over all 3 mapping kinds x alpha in [1e-9,0.99] (one in four rebuilt from base and offset, incl. offsets engineered to put a bin on an integer boundary of the inverse index function, that bin then being probed on purpose) x 3x3 non-collapsing store kinds, added one at a time with queries interleaved; every answer is compared with the exact order statistics at floor/ceil of the exact rational rank q*(n-1) under the configured alpha plus a derived floating-point slack; q=0/q=1 must be bit-identical to the extreme bin's representative. Exploration is the right level: a for-all over inputs/configurations with an executable oracle.",
         design_ref="DESIGN.md §2 C01, §1.1",
         note="Trusted: the mapping's Index() for locating bins in the non-triviality rule only (accuracy is judged on values), big.Rat arithmetic. Index window of dense/paginated sketches capped at 2^14 bins by memory. Sampling: a violation confined to one specific (alpha, bin) away from edges could be missed.",
         technique="property-based testing (rapid) against an exact sorted-multiset model with exact rational ranks",
     ),
     'C02': dict(
-        text="Generated-input search with two independent oracles: an exact index->weight model of the whole input and a metamorphic twin (one sketch fed everything). Inputs are partitioned over 1..6 sketches with independently drawn store kinds (incl. empty and recycled parts) and merged along generated trees, each edge by MergeWith or Encode+DecodeAndMergeWith; root, twin and model must agree bit for bit on bins, zero weight, count, extremes, store rank lookups and probe quantiles; each merge must leave its argument unchanged.",
+        text="Generated-input search with two independent oracles: an exact index->weight model of the whole input and a metamorphic twin (one sketch fed everything). Inputs are partitioned over 1..6 sketches with independently drawn store kinds (incl. empty and recycled parts) and merged along generated trees, each edge by MergeWith or Encode+DecodeAndMergeWith; root, twin and model must agree bit for bit on bins, zero weight, count, extremes, store rank lookups and probe quantiles; each merge must leave its argument unchanged. A second generator merges parts in structured paginated states (pages at positions moving away step by step, unit clusters around the compaction thresholds) in a chain.",
         design_ref="DESIGN.md §2 C02",
         note="Trusted: model.Map; exactness budget (dyadic weights). Non-collapsing stores only (as the property states).",
         technique="property-based testing (rapid): metamorphic twin + exact model over generated partitions and merge trees",
     ),
     'C03': dict(
-        text="Generated-input search with a validity oracle per value: for mappings of all three kinds built from alpha in [1e-9,0.99] or rebuilt from (gamma, arbitrary offset up to +-2^30), ~70 values per mapping concentrated where rounding matters (bin edges +-4 ulps incl. the 10 lowest/highest indexes, binade edges, both range ends, log-uniform fill) are checked for alpha-accuracy of Value(Index(v)), int32 range, containment between consecutive lower bounds and monotonicity over adjacent-float / few-ulp / adjacent-bin / far pairs; the reported accuracy must equal the configured one. Found and drove the repair of finding F7.",
+        text="Generated-input search with a validity oracle per value: for mappings of all three kinds built from alpha in [1e-9,0.99] or rebuilt from (gamma, arbitrary offset up to +-2^30), ~70 values per mapping concentrated where rounding matters (bin edges +-4 ulps incl. the 10 lowest/highest indexes, edge neighbourhoods at every scale 10^-2.5..10^-16, binade edges, both range ends, log-uniform fill; offsets incl. ones engineered so that (i-offset)/multiplier is an integer or its float neighbour) are checked for alpha-accuracy of Value(Index(v)), int32 range, containment between consecutive lower bounds and monotonicity over adjacent-float / few-ulp / adjacent-bin / far pairs; the reported accuracy must equal the configured one. Found and drove the repair of finding F7.",
         design_ref="DESIGN.md §2 C03, §1.1",
         note="Trusted: math.Log/Exp of the Go runtime within the derived slack. Sampling concentrated on the measure-zero set of edges; a violation at one specific interior value of one specific mapping would be found only by luck.",
         technique="property-based testing (rapid) with analytic validity predicates (accuracy, containment, monotonicity) on edge-focused generated floats",
     ),
     'C04': dict(
-        text="Model-based stateful property testing: one rapid state machine per non-collapsing store kind generates histories over Add/AddWithCount/AddBin/bursts/MergeWith(any of 5 kinds)/Copy/Clear/Reweight/Encode+Decode/ToProto+MergeWithProto and compares, after every step, the complete public observation (emptiness, total, min/max index, ForEach, Bins(), KeyAtRank at every cumulative boundary +- half a quantum) bit-for-bit with the mathematical index->weight map; dyadic bounded weights make every float sum exact so no tolerance is needed. The layout hook counts structural events (array shift/grow, page creation, left extension, compaction) so that evidence shows they were exercised.",
+        text="Model-based stateful property testing: one rapid state machine per non-collapsing store kind generates histories over Add/AddWithCount/AddBin/bursts/MergeWith(any of 5 kinds)/Copy/Clear/Reweight/Encode+Decode/ToProto+MergeWithProto and compares, after every step, the complete public observation (emptiness, total, min/max index, ForEach, Bins(), KeyAtRank at every cumulative boundary +- half a quantum) bit-for-bit with the mathematical index->weight map; dyadic bounded weights make every float sum exact so no tolerance is needed. The layout hook counts structural events (array shift/grow, page creation, left extension, compaction) so that evidence shows they were exercised. Further generators: no-read windows (several mutations incl. clear/merge/reweight between observations, clear-and-refill to the same size), large-scale workloads (tens of thousands of additions, then a series of merges with a drifting hot region), structured paginated states combined by merge/decode/protobuf, and wide-range weights (units next to 2^53..2^200) judged per bin against 400-bit arithmetic.",
         design_ref="DESIGN.md §2 C04, §1.1",
         note="Trusted: model.Map (a Go map with sorted iteration), the exactness budget. Index spans capped per store kind by memory (dense 2^14..2^18, paginated 2^18, sparse 2^30). Sampling of histories up to ~120 steps.",
         technique="stateful model-based property testing (rapid state machine) against an exact map model",
     ),
     'C05': dict(
-        text="Model-based stateful property testing on both collapsing stores with N from 1 to 2048: after every step the observation must equal fold(M,N) of the exact unfolded content, with bins <= N, span <= N, total conserved and (hook) allocated length <= N; merge arguments of all kinds and independent bin limits, including wide same-kind arguments into empty/cleared receivers (the shape of repaired finding F1). A sketch-level generator checks alpha-accuracy of every quantile whose floor/ceil order statistics lie in retained bins.",
+        text="Model-based stateful property testing on both collapsing stores with N from 1 to 2048: after every step the observation must equal fold(M,N) of the exact unfolded content, with bins <= N, span <= N, total conserved and (hook) allocated length <= N; merge arguments of all kinds and independent bin limits, including wide same-kind arguments into empty/cleared receivers (the shape of repaired finding F1). A sketch-level generator checks alpha-accuracy of every quantile whose floor/ceil order statistics lie in retained bins; large-scale workloads and wide-range weights (per-bin comparison against 400-bit arithmetic) as in C04.",
         design_ref="DESIGN.md §2 C05",
         note="Trusted: the fold model (history independence of folding is itself exercised: any dependence shows up as a mismatch). Sketch-level clause asserts accuracy only when both candidate order statistics are retained.",
         technique="stateful model-based property testing (rapid state machine) against fold(exact map, N); generated sketch-level accuracy cases",
     ),
     'C19': dict(
-        text="Generated-input round-trip and metamorphic search: every generated mapping is pushed through binary Encode/Decode, protobuf Marshal/Unmarshal/FromProto and the streaming IndexMappingBuilder; results must Equal the original in both directions, re-serialize to identical bytes and agree bitwise on Index/Value/LowerBound/accuracy/range at probe values and indexes; an independent parser must read the same kind/gamma/offset from the block; equality is checked for reflexivity, symmetry and discrimination (other kind, accuracy >= 0.1% apart, clearly different offsets).",
+        text="Generated-input round-trip and metamorphic search: every generated mapping is pushed through binary Encode/Decode, protobuf Marshal/Unmarshal/FromProto and the streaming IndexMappingBuilder; results must Equal the original in both directions, re-serialize to identical bytes and agree bitwise on Index/Value/LowerBound/accuracy/range at probe values and indexes; an independent parser must read the same kind/gamma/offset from the block; equality is checked for reflexivity, symmetry (also for offsets around the tolerance of Equals, 0 against tiny non-zero ones) and discrimination (other kind, accuracy >= 0.1% apart, clearly different offsets); several mappings read in a row (binary, protobuf, sketch decoder; same base/offset across kinds) must each come back as written.",
         design_ref="DESIGN.md §2 C19",
         note="Trusted: google.golang.org/protobuf, harness/refdec. Equality discrimination is asserted only for pairs at least 0.1% apart in accuracy (as the property states).",
         technique="property-based round-trip and metamorphic testing (rapid) with an independent wire-format reader",
     ),
     'C20': dict(
-        text="Model-based stateful property testing of dataset.Dataset against a sorted-slice model: additions interleaved with lower/upper quantile, min, max, sum, count queries and merges; exact rational ranks; a permuted twin must answer identically.",
+        text="Model-based stateful property testing of dataset.Dataset against a sorted-slice model: additions interleaved with lower/upper quantile, min, max, sum, count queries and merges; exact rational ranks; a permuted twin must answer identically. A large-scale generator (1000..65537 values, queries interleaved with batches below the minimum / above the maximum / equal to it, merges) covers sizes short histories never reach.",
         design_ref="DESIGN.md §2 C20",
         note="Trusted: sort.Float64s for the model, Shewchuk exact summation for the reference sum. Both readings of floor(q*(n-1)) (exact / binary64) accepted.",
         technique="stateful model-based property testing (rapid state machine) against a sorted multiset",
     ),
     'C06': dict(
-        text="Generated-input round-trip and metamorphic search: sources built by generated histories over all store kinds/mappings/both variants are encoded (omit on/off, arbitrary buffer prefix with/without spare capacity) and decoded into targets of all five kinds; decoded content must equal fold_target(source content) exactly, decoding into a non-empty receiver must equal merging into a copy, a concatenation must decode to the merge, the prefix/backing array must be untouched and the source unchanged. A second generator checks each arbitrary float64 weight against the documented (w+1)-1 transform bit for bit.",
+        text="Generated-input round-trip and metamorphic search: sources built by generated histories over all store kinds/mappings/both variants are encoded (omit on/off, arbitrary buffer prefix with/without spare capacity) and decoded into targets of all five kinds; decoded content must equal fold_target(source content) exactly, decoding into a non-empty receiver must equal merging into a copy, a concatenation must decode to the merge, the prefix/backing array must be untouched and the source unchanged. A second generator checks each arbitrary float64 weight against the documented (w+1)-1 transform bit for bit; further generators: sketches whose bins lie more than 2^31 indexes apart, second-generation decoding (decode, encode, decode), encodings after every weight underflowed to exactly 0, and stores built with arbitrary weights/factors and merges between collapsing stores of different limits whose encoding must carry (w+1)-1 of exactly what their own iteration reports.",
         design_ref="DESIGN.md §2 C06",
         note="Trusted: exact model + fold model; refdec only for labelling which wire layouts occurred.",
         technique="property-based round-trip / metamorphic testing (rapid) against an exact model",
     ),
     'C07': dict(
-        text="Differential testing against an independent implementation of the wire format written from its documentation (harness/refdec): (A) every produced encoding must parse completely with documented flags only and yield exactly the sketch's content and statistics; (B) streams generated from the documented grammar (any block order, all three layouts, negative/zero/large strides, repeated indexes and blocks, N=0 blocks, statistics blocks) must decode into all five store kinds to the content the documentation assigns; (C) the plain decoder must accept exact-summary encodings. Thorough adds a coverage-guided fuzz campaign over direction B. Re-detects repaired finding F2.",
+        text="Differential testing against an independent implementation of the wire format written from its documentation (harness/refdec): (A) every produced encoding must parse completely with documented flags only and yield exactly the sketch's content and statistics; (B) streams generated from the documented grammar (any block order, all three layouts, negative/zero/large strides, repeated indexes and blocks, N=0 blocks, statistics blocks, long runs of scattered unit-weight bins followed by index-delta blocks) must decode into all five store kinds to the content the documentation assigns; (C) the plain decoder must accept exact-summary encodings. Thorough adds a coverage-guided fuzz campaign over direction B. Re-detects repaired finding F2.",
         design_ref="DESIGN.md §2 C07",
         note="Trusted: refdec as the reading of the documentation (a symmetric encoder+decoder deviation from the documentation is caught because refdec shares no code with the repository).",
         technique="differential property-based testing (rapid + native fuzzing) against an independent reference codec; grammar-based stream generation",
     ),
     'C08': dict(
-        text="Fault enumeration: for each sampled valid encoding (all producer store kinds hence layouts, 3 mappings, both variants, mapping embedded/omitted) EVERY truncation point, undefined flags at EVERY block boundary (8 sampled per boundary in quick, all in thorough), mapping mismatches and the missing-mapping case are tried against 5 store kinds x 3 decoding APIs x mapping supplied/nil under recover; strictly-inside cuts and faults must return an error, boundary cuts must succeed and hold exactly the complete blocks' content as read by the independent parser; no panic. Re-detects repaired finding F3.",
+        text="Fault enumeration: for each sampled valid encoding (all producer store kinds hence layouts, 3 mappings, both variants, mapping embedded/omitted) EVERY truncation point, undefined flags at EVERY block boundary (8 sampled per boundary in quick, all in thorough), mapping mismatches (other kind, other accuracy, same base with another index offset; the same mismatching stream also three times on one persistent receiver) and the missing-mapping case are tried against 5 store kinds x 3 decoding APIs x mapping supplied/nil under recover; strictly-inside cuts and faults must return an error, boundary cuts must succeed and hold exactly the complete blocks' content as read by the independent parser; no panic. Re-detects repaired finding F3.",
         design_ref="DESIGN.md §2 C08",
         note="Trusted: refdec block boundaries/field offsets. Encodings are sampled, faults per encoding are complete. Garbage input outside the stated fault classes is deliberately not asserted.",
         technique="fault enumeration over generated encodings (every cut point, every undefined flag per boundary) with an independent parser as oracle; native fuzzing in thorough",
     ),
     'C09': dict(
-        text="Generated-input round-trip search over the protobuf forms: history-built sketches (dyadic weights), one-arbitrary-weight-per-index sketches (bit-exactness) and hand-built messages mixing binCounts and contiguousBinCounts are marshalled, unmarshalled and rebuilt with every store kind; rebuilt content must equal fold_target(source content) with identical weight bits; the streaming EncodeProto bytes must unmarshal to a message proto.Equal to ToProto() and rebuild identically; MergeWithProto into empty and non-empty stores adds up.",
+        text="Generated-input round-trip search over the protobuf forms: history-built sketches (dyadic weights), one-arbitrary-weight-per-index sketches (bit-exactness) and hand-built messages mixing binCounts and contiguousBinCounts are marshalled, unmarshalled and rebuilt with every store kind; rebuilt content must equal fold_target(source content) with identical weight bits; the streaming EncodeProto bytes must unmarshal to a message proto.Equal to ToProto() and rebuild identically; MergeWithProto into empty and non-empty stores adds up. A further generator builds stores with arbitrary weights/factors and merges between collapsing stores of different limits: the message and the streamed bytes must carry, bit for bit, what the store's own iteration reports.",
         design_ref="DESIGN.md §2 C09",
         note="Trusted: google.golang.org/protobuf; exact model.",
         technique="property-based round-trip testing (rapid) with exact model and proto.Equal differential between streaming and in-memory writers",
     ),
     'C10': dict(
-        text="Model-based stateful property testing of the exact-summary variant with a plain twin: generated histories over adds (incl. weight 0 and rejected values), merges, decode-merges, copies, clears, reweights, encode/decode and up to three ChangeMapping unit changes; after every step count, emptiness, min and max must equal the exact statistics of the absorbed (value, weight) list bit for bit, the sum must be within a derived few-ulp bound of the arbitrary-precision reference, every quantile must lie in [min,max], and while the state is dyadic every quantile must equal clamp(plain twin's answer, min, max) exactly.",
+        text="Model-based stateful property testing of the exact-summary variant with a plain twin: generated histories over adds (incl. weight 0 and rejected values), merges (incl. refused ones, with a mismatching mapping), decode-merges, copies, clears, reweights, encode/decode and up to three ChangeMapping unit changes; after every step count, emptiness, min and max must equal the exact statistics of the absorbed (value, weight) list bit for bit, the sum must be within a derived few-ulp bound of the arbitrary-precision reference, every quantile must lie in [min,max], and while the state is dyadic every quantile must equal clamp(plain twin's answer, min, max) exactly.",
         design_ref="DESIGN.md §2 C10, §1.1",
         note="Trusted: big.Float reference sum; plain twin for un-clamped answers. Compensated vs naive summation cannot be told apart within the bound except on cancellation-heavy inputs (weak spot, DESIGN §5).",
         technique="stateful model-based property testing (rapid state machine) with an exact statistics model and a differential plain twin",
@@ -87,31 +87,31 @@ TEXTS = {
         technique="property-based testing (rapid) with shape-forcing generators against an exact model and coherence predicates",
     ),
     'C13': dict(
-        text="Generated-input search over invalid and boundary inputs: a sketch in a generated reachable state receives one call from the documented-invalid and boundary classes (adds, quantiles, merges with mismatching mappings, non-positive reweights, constructors, NewBin, summary statistics constructors); the documented error (or nil for valid input) is required and the full observation before and after a refusal must be identical. Re-detects repaired finding F5.",
+        text="Generated-input search over invalid and boundary inputs: a sketch in a generated reachable state receives one call from the documented-invalid and boundary classes (adds, quantiles, merges with mappings that differ in kind, accuracy or only in index offset, non-positive reweights at sketch and store level, constructors, NewBin, summary statistics constructors); the documented error (or nil for valid input) is required and the full observation before and after a refusal must be identical; one time in four the sketch first decode-merges a mapping that is Equal without being bit-identical, after which the bounds of its current mapping decide. Re-detects repaired finding F5.",
         design_ref="DESIGN.md §2 C13",
         note="Trusted: obs.Sketch observer. The grey corner AddWithCount(invalid, 0) on the exact variant is not asserted either way.",
         technique="property-based testing (rapid) with a contract-derived expected outcome and before/after observation equality",
     ),
     'C14': dict(
-        text="Model-based stateful property testing over a population of 1-4 live objects (sketches of one variant with per-object store kinds, or stores of the five kinds), each with its own exact model: mutations hit one object, read-only operations (all observers, early-stopped iteration, ToProto, EncodeProto, Encode, Copy, being a merge argument, being a ChangeMapping receiver, store-level Bins/KeyAtRank/ToProto/Encode) hit one object; after every action every object must equal its model and every non-target object must have exactly its previous observation, which exposes impure reads and aliasing between copies.",
+        text="Model-based stateful property testing over a population of 1-4 live objects (sketches of one variant with per-object store kinds, or stores of the five kinds), each with its own exact model: mutations hit one object, read-only operations (all observers, early-stopped iteration, ToProto, EncodeProto, Encode, Copy, being a merge argument, being a ChangeMapping receiver, store-level Bins/KeyAtRank/ToProto/Encode) hit one object; after every action every object must equal its model and every non-target object must have exactly its previous observation, which exposes impure reads and aliasing between copies. A twin generator applies the same mutations to two sketches, reads one of them at generated points with every kind of read-only operation and never looks at the other before the end: they must then answer identically.",
         design_ref="DESIGN.md §2 C14",
         note="Trusted: per-object models; layout hook only for the non-triviality label (read on a paginated store holding buffered entries).",
         technique="stateful model-based property testing (rapid state machine) over a multi-object population with before/after observation equality",
     ),
     'C15': dict(
-        text="Stateful twin testing: a store (five kinds) or sketch (both variants) is driven through a structure-leaving history, cleared, and then driven in lock-step with a freshly constructed twin through a second history whose indexes/values are placed relative to the first one's (same range, +-1, +-32, +-N, far away), with repeated clear/reuse cycles and decode-merges into the cleared object; observations must be identical after every step and equal the model of the second history alone.",
+        text="Stateful twin testing: a store (five kinds) or sketch (both variants) is driven through a structure-leaving history, cleared, and then driven in lock-step with a freshly constructed twin through a second history whose indexes/values are placed relative to the first one's (same range, +-1, +-32, +-N, far away), with repeated clear/reuse cycles, decode-merges into the cleared object and, before a Clear, weights that underflowed to zero or overflowed; observations must be identical after every step and equal the model of the second history alone.",
         design_ref="DESIGN.md §2 C15",
         note="Trusted: model of H2; twin built by the public constructors. Bytes of encodings are not compared, decoded content is.",
         technique="stateful property testing (rapid) with a fresh-object twin and an exact model",
     ),
     'C16': dict(
-        text="Metamorphic twin testing: after a generated history, Reweight(w) must leave exactly the observation of a fresh object that replayed the same history with every weight multiplied by w (unit adds thereby take the weighted path; paginated stores are driven to hold both buffered and paged indexes; collapsing stores past their first fold); both must equal w * model; Reweight(1) must be an observable no-op; exact variant: count scaled exactly, min/max unchanged, sum within the derived bound.",
+        text="Metamorphic twin testing: after a generated history, Reweight(w) must leave exactly the observation of a fresh object that replayed the same history with every weight multiplied by w (unit adds thereby take the weighted path; paginated stores are driven to hold both buffered and paged indexes; collapsing stores past their first fold); both must equal w * model; Reweight(1) must be an observable no-op; exact variant: count scaled exactly, min/max unchanged, sum within the derived bound. A second generator uses arbitrary (non-dyadic) factors and weights, one contribution per bin, judged bin by bin within a few ulps.",
         design_ref="DESIGN.md §2 C16",
         note="Trusted: exactness budget for scaled weights (dyadic factors); model scaling.",
         technique="metamorphic property testing (rapid): replay-with-scaled-weights twin plus exact model",
     ),
     'C17': dict(
-        text="Generated-input search with validity predicates derived from the conversion's specification: for ordered mapping pairs (3x3 kinds; coarser, finer, equal, bin-aligned) and scales in [1e-3,1e3], the result must carry the requested mapping, leave the source unchanged, keep zero weight exactly and total weight within a derived bound, hold no negative bin (observed through forms that show non-positive bins), place weight only in target bins overlapping scaled source bins (isolated source bins hand over exactly their weight), answer every quantile from a target bin overlapping the scaled range of a source bin within one unit of rank, be an exact independent copy for the identity conversion, and rescale exact statistics. Re-detects repaired finding F6.",
+        text="Generated-input search with validity predicates derived from the conversion's specification: for ordered mapping pairs (3x3 kinds; coarser, finer, equal, bin-aligned) and scales in [1e-3,1e3], the result must carry the requested mapping, leave the source unchanged, keep zero weight exactly and total weight within a derived bound, hold no negative bin (observed through forms that show non-positive bins), place weight only in target bins overlapping scaled source bins (isolated source bins hand over exactly their weight), answer every quantile from a target bin overlapping the scaled range of a source bin within one unit of rank, be an exact independent copy for the identity conversion, and rescale exact statistics; a second generator converts a very coarse mapping to one 2e5..4e6 times finer (one source bin over millions of target bins). Re-detects repaired finding F6.",
         design_ref="DESIGN.md §2 C17",
         note="Trusted: LowerBound of both mappings for the overlap predicates (C03 checks them). Values kept well inside both ranges as the property requires.",
         technique="property-based testing (rapid) with conservation / locality / rank-window validity predicates",
